@@ -38,17 +38,21 @@ class KeyLogKernel(ModelMixin):
         info = DefaultTransitionInfo(0, jnp.float32(1.0), jnp.int32(1))
         return TransitionOutcome(info, ks, self.model.update_state(new, model_state))
 
+    @staticmethod
+    def _log(prng_key, kernel_state):
+        return {"keys": kernel_state["keys"].at[kernel_state["n"]].set(jnp.asarray(prng_key, dtype=jnp.uint32)), "n": kernel_state["n"] + 1}
+
     def tune(self, prng_key, kernel_state, model_state, epoch, history=None):
-        return TuningOutcome(DefaultTuningInfo(0, epoch.time), kernel_state)
+        return TuningOutcome(DefaultTuningInfo(0, epoch.time), self._log(prng_key, kernel_state))
 
     def start_epoch(self, prng_key, kernel_state, model_state, epoch):
-        return kernel_state
+        return self._log(prng_key, kernel_state)
 
     def end_epoch(self, prng_key, kernel_state, model_state, epoch):
-        return kernel_state
+        return self._log(prng_key, kernel_state)
 
     def end_warmup(self, prng_key, kernel_state, model_state, tuning_history):
-        return WarmupOutcome(0, kernel_state)
+        return WarmupOutcome(0, self._log(prng_key, kernel_state))
 
 
 def builder(seed, chains=3, init=None, multiple=False, jitter=None, kernels="rw"):
@@ -92,9 +96,11 @@ def bounded(tier, seed):
         arr, n = np.asarray(ks["keys"]), np.asarray(ks["n"])
         for c in range(arr.shape[0]):
             allkeys += [tuple(int(v) for v in row) for row in arr[c][: int(n[c])]]
-    want_n = 2 * 3 * sum(d for _, d, _ in SCHED[1:])
+    # per kernel and chain: every transition + start_epoch/end_epoch per sampled epoch + tune per adaptation epoch + end_warmup once
+    per = sum(d for _, d, _ in SCHED[1:]) + 2 * len(SCHED[1:]) + sum(1 for t, _, _ in SCHED[1:] if t in (1, 2)) + 1
+    want_n = 2 * 3 * per
     if len(allkeys) != want_n or len(set(allkeys)) != len(allkeys):
-        col.add({"sig": "native::repro::distinct_keys", "what": f"{len(allkeys)} kernel calls received {len(set(allkeys))} distinct keys (expected {want_n} distinct)", "input": {"seed": s}})
+        col.add({"sig": "native::repro::distinct_keys", "what": f"{len(allkeys)} kernel calls (transition, start_epoch, end_epoch, tune, end_warmup) received {len(set(allkeys))} distinct keys (expected {want_n} distinct)", "input": {"seed": s}})
     else:
         col.add(None)
     # 4. chain independence: change the initial values of chains 1,2 only
@@ -140,7 +146,7 @@ def bounded(tier, seed):
     return {
         "evaluations": col.evals, "distinct_nontrivial": col.evals,
         "rule": ("BOUNDED: real EngineBuilder/Engine, 3 chains, two RW kernels on a Gaussian dict model, schedule INIT/FAST(4)/BURNIN(2)/POST(6, thinning 2): rerun equality, int seed vs "
-                 "PRNGKey, uniqueness of the keys received by every kernel transition (key-logging kernel), chain 0 unchanged when other chains' initial values change, first "
+                 "PRNGKey, uniqueness of the keys received by every kernel call - transition, start_epoch, end_epoch, tune, end_warmup - (key-logging kernel), chain 0 unchanged when other chains' initial values change, first "
                  f"recorded sample = initial value + jitter for replicated and per-chain states over two consecutive build() calls. base seed {s}. Determinism of XLA is an assumption."),
         "samples": [{"seed": s, "schedule": SCHED}],
         "exhaustive": False, "violations": col.violations,
